@@ -192,6 +192,9 @@ class HdfModels:
             n = ex.num(args[0])
             if n is not None and n[1] == TInt:
                 ex.assumed.add("A13: str(int) is injective, int(str(i)) == i, 'arr_'+s is injective and never a decimal string")
+                from .models import str_nonempty_f
+
+                st.assume(str_nonempty_f(str_of_int(n[0])))  # str(i) is not the empty string
                 return SV(str_of_int(n[0]), TStr)
             return NotImplemented
         if name == "int" and len(args) == 1 and isinstance(args[0], SV) and args[0].ty == TStr:
@@ -493,6 +496,16 @@ class HdfModels:
             it = IterV(n, lambda i: SV(el[i], T.t))
             it.elem_type = T.t
             return it
+        if isinstance(v, Ref) and isinstance(st.heap[v.id], H5View) and st.heap[v.id].kind == "agrp":
+            # iterating a group yields the names of its members (as opaque values)
+            from .values import val_of_str
+
+            _, inner = self._inner(ex, st.heap[v.id])
+            d = st.heap[AG.project(st, inner).id]
+            keys = d.keys
+            it = IterV(d.n, lambda i: SV(val_of_str(keys[i]), TVal))
+            it.elem_type = TVal
+            return it
         return NotImplemented
 
     def isinstance_(self, ex, v, cls):
@@ -507,6 +520,20 @@ class HdfModels:
         if fi.qualname == MOD + ".HDFDatabase.__to_real" or fi.qualname.endswith("HDFDatabase._HDFDatabase__to_real"):
             ex.assumed.add("HDFDatabase.__to_real is the identity on real data (complex values: not covered)")
             return args[-1]
+        if _in_mod(ex):
+            # the design-space part of HDFDatabase.to_file (file I/O of DesignSpace: not under contract)
+            if fi.qualname == "gemseo.algos.database.Database.input_space":
+                from .values import TObj
+
+                ex.assumed.add("Database.input_space / DesignSpace.to_hdf (assumed): reading the input space has no effect on the database; "
+                               "DesignSpace.to_hdf only writes the 'design_space' group of the node (groups x, k, v untouched)")
+                return TObj("gemseo.algos.design_space.DesignSpace", schema_key="gemseo.algos.design_space.DesignSpace#c11").fresh(ex.st, "input_space")
+            if fi.qualname == "gemseo.algos.design_space.DesignSpace.__len__":
+                n = ex.st.fresh_int("n_variables")
+                ex.st.assume(n >= 0)
+                return SV(n, TInt)
+            if fi.qualname == "gemseo.algos.design_space.DesignSpace.to_hdf":
+                return None
         return NotImplemented
 
     def coerce(self, ex, v, t):
@@ -515,6 +542,21 @@ class HdfModels:
         if getattr(t, "rname", "") == "HashableNdarray" and isinstance(v, SV) and v.ty == TNd and _in_mod(ex):
             return t.mk(ex.st, wrapped_array=v)
         return NotImplemented
+
+    def filtered_sequence(self, ex, seq, cond_at, n, src, dst):
+        """Derived fact about ``(e for e in seq if cond)`` (proved by induction from the model of the filtered sequence in
+        contracts/c11_hdf_database.RankLemmas 'filtered:*'): the position of a kept element is the rank of its source index."""
+        if not _in_mod(ex):
+            return NotImplemented
+        st = ex.st
+        P = st.fresh_const("kept", z3.ArraySort(z3.IntSort(), z3.BoolSort()))
+        i = z3.Int("i!fr")
+        rank = z3.Function("h5_rank", z3.ArraySort(z3.IntSort(), z3.BoolSort()), z3.IntSort(), z3.IntSort())
+        st.assume(z3.ForAll([i], P[i] == cond_at(i), patterns=[P[i]]))
+        st.assume(z3.ForAll([i], z3.Implies(z3.And(0 <= i, i < seq.n, P[i]), dst[i] == rank(P, i)), patterns=[dst[i]]))
+        st.ghost.setdefault("h5_filtered", []).append((P, src, dst, n))
+        ex.assumed.add("lemma (RankLemmas filtered:*): in a filtered sub-sequence the position of a kept element is the rank of its source index")
+        return None
 
     def fstring_part(self, ex, x):
         if _in_mod(ex):
